@@ -30,3 +30,5 @@ def run(res):
     res.absorb(st, 'c07_bisect:every-input', g)
     wc.trace_validate(res, 'c07_recorded', wc.big({'proc', 'process', 'fault', 'toggle', 'clear', 'inframe'}), 2000 if th else 150, 60)
     wc.repo_tests_validate(res)
+    if th:
+        wc.simulate_big(res, salt=4)
